@@ -45,9 +45,7 @@ def generate(merged):
         if not f.get('blocks') or not f.get('file', '').startswith(('src/', 'include/')):
             continue
         ps, ls = decls_of(f)
-        if not ps and not ls:
-            continue
-        out[key] = {'q': f['q'], 'p': ps, 'l': [[n, t] for n, t, _ in ls]}
+        out[key] = {'q': f['q'], 'p': ps, 'l': [[n, t] for n, t, _ in ls], 'sig': f.get('sig'), 'file': f.get('file')}
     return out
 
 
@@ -75,7 +73,88 @@ def _align(old, new):
         for o, n in pairs:
             if n[0] not in oset and o[0] != n[0] and (o[0] not in nset or on.count(o[0]) > nn.count(o[0])):
                 ren[n[2]] = o[0]
+    # a declaration that was renamed AND moved: a vanished old name and a brand-new name that are the only ones of their type
+    nt = lambda t: ' '.join(w for w in t.replace('*', ' * ').split() if w != 'const')
+    mapped_old = set(ren.values())
+    lost = [o for o in old if o[0] not in nset and o[0] not in mapped_old]
+    fresh = [n for n in new if n[0] not in oset and n[2] not in ren]
+    for o in lost:
+        c = [n for n in fresh if nt(n[1]) == nt(o[1])]
+        if len(c) == 1 and sum(1 for o2 in lost if nt(o2[1]) == nt(o[1])) == 1:
+            ren[c[0][2]] = o[0]
     return ren
+
+
+def _canon_functions(merged, table):
+    """a helper function (file-local or a class's own method) that was merely RENAMED -- the tabled name is gone, and exactly one new
+    function with the same signature exists in the same file and the same enclosing scope -- is presented under its tabled name"""
+    if merged.get('_fcanon'):
+        return
+    merged['_fcanon'] = True
+    cur_q = {}
+    for k, f in merged['functions'].items():
+        cur_q.setdefault(f['q'], []).append(k)
+    tab_q = {}
+    for k, v in table.items():
+        tab_q.setdefault(v['q'], []).append(k)
+    gone = [q for q in tab_q if q not in cur_q and all(table[k].get('file') for k in tab_q[q])]
+    new = [q for q in cur_q if q not in tab_q and all(merged['functions'][k].get('blocks') for k in cur_q[q])]
+    if not gone or not new:
+        return
+    scope = lambda q: q.rsplit('::', 1)[0] if '::' in q else ''
+    ren = {}
+    for g in gone:
+        sigs = sorted((table[k].get('sig'), table[k].get('file')) for k in tab_q[g])
+        cands = [n for n in new if scope(n) == scope(g) and
+                 sorted((merged['functions'][k].get('sig'), merged['functions'][k].get('file')) for k in cur_q[n]) == sigs]
+        if len(cands) == 1 and sum(1 for g2 in gone if scope(g2) == scope(g) and
+                                   sorted((table[k].get('sig'), table[k].get('file')) for k in tab_q[g2]) == sigs) == 1:
+            ren[cands[0]] = g
+    if not ren:
+        return
+    # member functions: the template-argument-carrying name (qt) follows the plain one
+    def fix(name):
+        if not isinstance(name, str):
+            return name
+        for a, b in ren.items():
+            if name == a:
+                return b
+            if name.startswith(a) and name[len(a):len(a) + 1] in ('<', '('):
+                return b + name[len(a):]
+        return name
+
+    def walk(x):
+        if isinstance(x, dict):
+            for key in ('fq', 'd', 'fn'):
+                if key in x and x.get('vid') is None:
+                    x[key] = fix(x[key])
+            for y in x.values():
+                if isinstance(y, (dict, list)):
+                    walk(y)
+        elif isinstance(x, list):
+            for y in x:
+                if isinstance(y, (dict, list)):
+                    walk(y)
+    newkeys = {}
+    for k, f in list(merged['functions'].items()):
+        walk(f.get('blocks') or [])
+        if f['q'] in ren:
+            old = ren[f['q']]
+            f['qt'] = fix(f['qt'])
+            f['q'] = old
+            # present it under the tabled key as well, so that its locals can be aligned
+            tk = [t for t in tab_q[old] if table[t].get('sig') == f.get('sig')]
+            if len(tk) == 1 and tk[0] not in merged['functions']:
+                newkeys[k] = tk[0]
+    for k, nk in newkeys.items():
+        f = merged['functions'].pop(k)
+        f['key'] = nk
+        merged['functions'][nk] = f
+    fbq = {}
+    for k, f in merged['functions'].items():
+        fbq.setdefault(f['q'], []).append(k)
+    merged['fn_by_q'] = fbq
+    merged.setdefault('_renamed', {}).update({'function ' + a: {a: b} for a, b in ren.items()})
 
 
 def canon(merged, table=None):
@@ -85,6 +164,7 @@ def canon(merged, table=None):
             return {}
         with open(TABLE) as fh:
             table = json.load(fh)['functions']
+    _canon_functions(merged, table)
     by_q = {}
     for k, v in table.items():
         by_q.setdefault(v['q'], []).append(k)
